@@ -10,6 +10,34 @@ Open Scope string_scope.
 (* identity, version and the join handshake: the only endpoints an untrusted peer may invoke *)
 Definition open_spec : list string := ["Cluster.ID"; "Cluster.Version"; "Cluster.PeerAdd"].
 
+(* What the open endpoints may DO on the peer when they run (they run for anybody, trusted or not). Effects are named after the
+   component call they are: "IPFS.<method>", "Tracker.<method>", "Consensus.<method>", "Informer.GetMetric", "Monitor.<method>",
+   and "Callback.Cluster.ID" for the RPC the peer sends out during the join handshake. Written from cluster.go as it is today:
+   * Cluster.ID (cluster.go ID): reads the identity of the peer: its own id/addresses (host, peer manager), the consensus
+     peerset (Consensus.Peers: the membership, not the pinset) and the identity of its IPFS daemon (IPFS.ID: the "id" request,
+     which reads nothing of the pinset and changes nothing: api.ID carries the daemon's id and addresses by design);
+   * Cluster.Version: a constant;
+   * Cluster.PeerAdd (cluster.go PeerAdd): the join handshake: Consensus.AddPeer, then the call-back Cluster.ID to the added
+     peer (getIDForPeer). The added peer may be the called peer itself, in which case the call-back runs its own Cluster.ID:
+     hence the effects of Cluster.ID as well. Nothing else. *)
+Definition open_effects : list (string * list string) := [
+  ("Cluster.ID", ["IPFS.ID"; "Consensus.Peers"]);
+  ("Cluster.Version", []);
+  ("Cluster.PeerAdd", ["Consensus.AddPeer"; "Callback.Cluster.ID"; "IPFS.ID"; "Consensus.Peers"])
+].
+Definition allowed_effects (ep : string) : list string :=
+  match find (fun x => String.eqb (fst x) ep) open_effects with Some x => snd x | None => [] end.
+
+(* the classes of effect the property denies to a peer that is not trusted: driving the IPFS daemon (anything but reading its
+   identity), driving the pin tracker, reading or writing the pinset, writing to consensus other than the join (AddPeer),
+   and running the informers / publishing metrics (the job of the local-only Cluster.SendInformersMetrics) *)
+Definition effect_forbidden (e : string) : bool :=
+  (String.prefix "IPFS." e && negb (String.eqb e "IPFS.ID"))
+  || String.prefix "Tracker." e
+  || (String.prefix "Consensus." e && negb (mem_str e ["Consensus.AddPeer"; "Consensus.Peers"]))
+  || String.prefix "Informer." e
+  || (String.prefix "Monitor." e && negb (mem_str e ["Monitor.LatestMetrics"; "Monitor.MetricNames"])).
+
 (* meant for local use (the peer's own components, its REST API and proxy): refused to every remote caller.
    Every pinset read/write, every tracker / IPFS / metrics drive that is not part of a broadcast. *)
 Definition local_only_spec : list string := [
